@@ -106,6 +106,6 @@ def run(tier, seed):
                     for e in (episodes[0], episodes[len(episodes) // 2], episodes[-1])],
     }
     return rep.finish(cov, assumptions=[
-        "float outputs of the constructors are lifted to rationals with |x-p/q| <= 1e-12 max(1,|x|), q <= 5e5",
+        "float outputs of the constructors are lifted to rationals with |x-p/q| <= 3e-14 max(1,|x|), q <= 3e4; coincidental lift probability 1.6e-5 per non-rational value",
         "pi enters cell volumes only as the overall factor pi^PiExp(class, angle unit) that the spec states",
         "trigonometric values only at Niven angles (multiples of pi/6, pi/3, pi/2) for SphericalGrid3D"])
